@@ -248,6 +248,23 @@ var c02Templates = []sim.Template{
 		}
 		return sc
 	}},
+	{Name: "recovery-code-again-in-a-later-login", F: func(s *sim.Sim) []*sim.Action {
+		// a recovery code completes one pending login; in a later login (fresh session, other browser) the
+		// same code is no longer one of the account's unused codes
+		if len(s.Cfg.TwoFA) == 0 || !s.Cfg.Has("auth") {
+			return nil
+		}
+		k := s.Cfg.TwoFA[s.R.Intn(len(s.Cfg.TwoFA))]
+		v := findAcct(s, func(u *world.User) bool {
+			return u.Confirmed && ((k == "totp" && u.TOTPSecretKey != "" && u.SMSPhone == "") || (k == "sms" && u.SMSPhone != "" && u.TOTPSecretKey == ""))
+		})
+		if v < 0 {
+			return nil
+		}
+		kv := k + "_validate"
+		return []*sim.Action{act("login", 0, v, "ok"), act(kv, 0, -9, "recovery"), act("logout", 0, -9, ""), act("advance", 0, -9, "", "d", "11s"),
+			act("login", 1, v, "ok"), act(kv, 1, -9, "recovery_spent"), act("advance", 1, -9, "", "d", "11s"), act("login", 2, v, "ok"), act(kv, 2, -9, "recovery_spent"), act(kv, 2, -9, "recovery")}
+	}},
 	{Name: "cross-kind-pending", F: func(s *sim.Sim) []*sim.Action {
 		if len(s.Cfg.TwoFA) < 2 || !s.Cfg.Has("auth") {
 			return nil
